@@ -420,7 +420,7 @@ def first_steps(tier):
 
 
 SUBS = [
-    Sub("history", check, strategy=strat, quick=1500, thorough=8000, workers_quick=2, workers_thorough=16,
+    Sub("history", check, strategy=strat, quick=2500, thorough=8000, workers_quick=4, workers_thorough=16,
         budget_quick=45, budget_thorough=540),
     Sub("first_steps", check, enumerate=first_steps, workers_quick=2, workers_thorough=4, budget_quick=30,
         budget_thorough=120),
